@@ -187,7 +187,12 @@ func TestDescribe(t *testing.T) {
 		fmt.Printf("INFRA unknown check %q\n", check)
 		os.Exit(2)
 	}
+	total := 0
+	if sc.Total != nil {
+		total = sc.Total(os.Getenv("VERIF_TIER"))
+	}
 	b, _ := json.Marshal(map[string]any{
+		"total":    total,
 		"property": sc.Property, "name": sc.Name, "level": sc.Level, "rule": sc.Rule,
 		"real": sc.Real, "stub": sc.Stub, "assumptions": sc.Assumptions,
 	})
